@@ -309,7 +309,7 @@ def build(rng, P, rep, table_mode=False):
             x = rng.choice(of('list') + of('str'))
             i = rng.choice(of('num'))
             c = rng.random()
-            if c < 0.35:
+            if c < 0.55:
                 # a slice whose start / stop / step are constants or expressions
                 parts = []
                 for _pos in range(3):
@@ -322,7 +322,7 @@ def build(rng, P, rep, table_mode=False):
                     lambda: x.ev()[slice(*[q.ev() if isinstance(q, Node) else q for q in parts])],
                     f'{x.desc}[' + ':'.join('' if q is None else q.desc if isinstance(q, Node) else str(q) for q in parts) + ']',
                     x.typ, 'index:slice-rx', (x,) + kids)
-            elif c < 0.6:
+            elif c < 0.72:
                 add(lambda: x.rx[0], lambda: x.ev()[0], f'{x.desc}[0]', 'any', 'index:const', (x,))
             else:
                 add(lambda: x.rx[i.rx], lambda: x.ev()[i.ev()], f'{x.desc}[{i.desc}]', 'any', 'index:rx', (x, i))
